@@ -83,8 +83,8 @@ pub fn k_fill_buf_fault_f7_c5<N: Nd>(nd: &mut N) {
 }
 
 harnesses! {
-    /// @meta props=C03,C14,C01:t,C02:t,C09:t tier=quick kind=K timeout=1500 mem=12 unwind=10 bounds="seq_io::fill_buf on capacity 5 over every file <= 7 bytes: every chunking of the first 6 source calls (1..all bytes), every pattern of interrupted reads among them, every prefix already buffered"
+    /// @meta props=C03,C14,C01,C02,C09:t tier=quick kind=K stage2=pub timeout=1500 mem=12 unwind=10 bounds="seq_io::fill_buf on capacity 5 over every file <= 7 bytes: every chunking of the first 6 source calls (1..all bytes), every pattern of interrupted reads among them, every prefix already buffered"
     libk_fill_buf_f7_c5 => k_fill_buf_f7_c5;
-    /// @meta props=C14,C06:t tier=quick kind=K timeout=1500 mem=12 unwind=10 bounds="seq_io::fill_buf on capacity 5, file <= 7 bytes, chunking and interrupts as above, plus a hard error of any of 4 kinds at any of the first 6 source calls"
+    /// @meta props=C14,C06:t tier=quick kind=K stage2=pub timeout=1500 mem=12 unwind=10 bounds="seq_io::fill_buf on capacity 5, file <= 7 bytes, chunking and interrupts as above, plus a hard error of any of 4 kinds at any of the first 6 source calls"
     libk_fill_buf_fault_f7_c5 => k_fill_buf_fault_f7_c5;
 }
